@@ -54,7 +54,7 @@ def item_to_eid(item):
             return 'dtn:' + ssp
         raise Malformed('dtn SSP neither 0 nor text')
     if scheme == 2:
-        if isinstance(ssp, list) and len(ssp) in (2, 3) and all(isinstance(p, int) and p >= 0 for p in ssp):
+        if isinstance(ssp, list) and len(ssp) in (2, 3) and all(type(p) is int and p >= 0 for p in ssp):
             return 'ipn:' + '.'.join(str(p) for p in ssp)
         raise Malformed('ipn SSP is not an array of 2 or 3 unsigned integers')
     raise Malformed('unknown EID scheme %r' % (scheme,))
@@ -154,14 +154,14 @@ def decode(data, strict=True):
     if len(pri_raw) != want:
         raise Malformed('primary block has %d items, flags/CRC type require %d' % (len(pri_raw), want))
     ts = pri_raw[6]
-    if not (isinstance(ts, list) and len(ts) == 2 and all(isinstance(t, int) and t >= 0 for t in ts)):
+    if not (isinstance(ts, list) and len(ts) == 2 and all(type(t) is int and t >= 0 for t in ts)):
         raise Malformed('creation timestamp')
     pri = dict(version=7, flags=flags, crc_type=crc_type, dest=item_to_eid(pri_raw[3]), src=item_to_eid(pri_raw[4]),
                report_to=item_to_eid(pri_raw[5]), ts=(ts[0], ts[1]), lifetime=pri_raw[7])
     pos = 8
     if flags & FLAG_IS_FRAGMENT:
         (pri['frag_offset'], pri['total_adu']) = pri_raw[8:10]
-        if not all(isinstance(v, int) and v >= 0 for v in pri_raw[8:10]):
+        if not all(type(v) is int and v >= 0 for v in pri_raw[8:10]):
             raise Malformed('fragment fields')
         pos = 10
     pri['crc'] = None
@@ -172,7 +172,9 @@ def decode(data, strict=True):
         if not isinstance(crc, bytes) or len(crc) != crc_len(crc_type):
             raise Malformed('primary CRC field')
         pri['crc'] = crc
-        pri['crc_ok'] = (crc_of(crc_type, enc_primary(pri, bytes(len(crc)))) == crc)
+        # the CRC covers the octets as received, with the CRC field (the final item) zeroed
+        (s0, s1) = pri['span']
+        pri['crc_ok'] = (crc_of(crc_type, data[s0:s1 - len(crc)] + bytes(len(crc))) == crc)
         if strict and enc_primary(pri, crc) != data[pri['span'][0]:pri['span'][1]]:
             raise Malformed('primary block is not in the preferred (shortest) encoding')
     blocks = []
@@ -199,7 +201,8 @@ def decode(data, strict=True):
             if not isinstance(crc, bytes) or len(crc) != crc_len(raw[3]):
                 raise Malformed('block CRC field')
             blk['crc'] = crc
-            blk['crc_ok'] = (crc_of(raw[3], enc_canonical(blk, bytes(len(crc)))) == crc)
+            (s0, s1) = blk['span']
+            blk['crc_ok'] = (crc_of(raw[3], data[s0:s1 - len(crc)] + bytes(len(crc))) == crc)
         if blk['num'] in nums:
             raise Malformed('duplicate block number %d' % blk['num'])
         if blk['num'] == 0:
